@@ -77,6 +77,9 @@ type Config struct {
 	// Subprocess, if non-nil, returns the command for a worker process that
 	// speaks the line protocol (see ServeWorker).
 	Subprocess func() *exec.Cmd
+	// Pool, if non-nil, is used instead of starting (and stopping) a pool
+	// from Subprocess for this exploration.
+	Pool *Pool
 	// OnResult is called (serialised) for every finished execution.
 	OnResult func(Job, Result)
 	MaxExecs int64
@@ -105,8 +108,17 @@ func Explore(cfg Config) Stats {
 	}
 	var pool *procPool
 	if cfg.Run == nil {
-		pool = newPool(cfg)
-		defer pool.close()
+		if cfg.Pool != nil {
+			// shared pool: workers are generic (the job names the scenario)
+			// and survive from one scenario's exploration to the next
+			pool = cfg.Pool.pp
+			if cfg.Workers > len(pool.w) {
+				cfg.Workers = len(pool.w)
+			}
+		} else {
+			pool = newPool(cfg)
+			defer pool.close()
+		}
 	}
 	var mu sync.Mutex
 	cond := sync.NewCond(&mu)
@@ -241,6 +253,21 @@ type proc struct {
 }
 
 func newPool(cfg Config) *procPool { return &procPool{cfg: cfg, w: make([]*proc, cfg.Workers)} }
+
+// Pool is a set of worker subprocesses shared by several Explore calls
+// (Config.Pool): a check with many scenarios pays the process start-up once.
+type Pool struct{ pp *procPool }
+
+// NewPool creates a shared pool; workers are started lazily.
+func NewPool(workers int, subprocess func() *exec.Cmd, jobTimeout time.Duration) *Pool {
+	if workers <= 0 {
+		workers = 1
+	}
+	return &Pool{pp: newPool(Config{Workers: workers, Subprocess: subprocess, JobTimeout: jobTimeout})}
+}
+
+// Close stops the workers.
+func (p *Pool) Close() { p.pp.close() }
 
 func (pp *procPool) start() (*proc, error) {
 	cmd := pp.cfg.Subprocess()
